@@ -190,7 +190,8 @@ func checkC11(c *vcommon.Case, t *ty, v *val) {
 
 	// 2. a pointer to the value is Some(value) (enums and results are passed by
 	//    pointer to reach their methods and are exempt)
-	if t.k != kEnum && t.k != kResult && t.k != kOpt && t.k != kBig && t.k != kU128 {
+	//    (a type with its own codec is dispatched through its pointer too: checkCustomTop)
+	if t.k != kEnum && t.k != kResult && t.k != kOpt && t.k != kBig && t.k != kU128 && t.toGoFn == nil {
 		c.Eval(1)
 		p := reflect.New(t.goT)
 		p.Elem().Set(g)
@@ -220,14 +221,17 @@ func checkC11(c *vcommon.Case, t *ty, v *val) {
 			c.Violation("roundtrip-value", fmt.Sprintf("%s(Marshal(%s %s)) = %s", how, t.name, show(t, v), show(t, o.v)), wit(map[string]any{"decoded": show(t, o.v)}))
 		default:
 			c.Count("roundtrips_ok", 1)
-			if how == "Decoder.Decode" && o.consumed != len(want) {
-				c.Violation("roundtrip-consumed", fmt.Sprintf("Decoder.Decode(%s) consumed %d bytes of a %d byte encoding", t.name, o.consumed, len(want)), wit(nil))
+			if how != "Unmarshal" && o.consumed != len(want) {
+				c.Violation("roundtrip-consumed", fmt.Sprintf("%s(%s) consumed %d bytes of a %d byte encoding", how, t.name, o.consumed, len(want)), wit(nil))
 			}
 		}
 	}
 	check("Unmarshal", realUnmarshal(t, want))
 	// the stream decoder sees the encoding followed by unrelated bytes
 	check("Decoder.Decode", realDecodeStream(t, append(append([]byte{}, want...), 0xa5, 0x5a, 0xff), c.R.Intn(3)))
+	// third decode path, the one production stream decoders take: scale.NewDecoder(bytes.NewReader(b))
+	// (known-remaining arm of decodeState.remaining / decodeBytes); with and without bytes after the value
+	c11ReaderArms(c, t, want, check)
 	c.Sample(map[string]any{"type": t.name, "value": show(t, v), "encoding": vcommon.Hex(clip(want)), "marshal_equal": true})
 }
 
@@ -364,4 +368,8 @@ func TestVerifC11(t *testing.T) {
 			checkC11(c, t, g.value(t, 0))
 		}
 	})
+	// several values on one stream with ONE encoder / ONE decoder (c11_reader_test.go)
+	c11Streams(r)
+	// types with a custom codec: Marshaler / Unmarshaler dispatch (universe_custom_test.go)
+	c11Custom(r)
 }
